@@ -35,6 +35,11 @@ type c12cliCase struct {
 	rateper time.Duration
 	// liveStop: live mode never ends by itself; the environment interrupts once that many probes are on the wire
 	liveStop int
+	// smallQueues: capacities >= 100 are scaled down to 1, so that the result and error queues are full
+	// with a handful of items (a backlog that a real run only has with thousands of queued results)
+	smallQueues bool
+	// slowOut: every write to standard output blocks that long (a pipe to a slow reader)
+	slowOut time.Duration
 }
 
 func verifC12CLI(c *drv.Ctx) {
@@ -61,6 +66,9 @@ func verifC12CLI(c *drv.Ctx) {
 		{name: "tcp-syn rate limited", args: []string{"tcp", "syn", "-p", "80-82", "--rate", "1/s", "10.0.1.1/32"}, stdin: cacheA, kind: "packet", reply: cmd("tcp-syn"), bound: 0, tbound: 1, rateper: time.Second},
 		{name: "socks 2 workers", args: []string{"socks", "-p", "1080-1082", "-w", "2", "10.0.1.0/31"}, kind: "app", workers: 2, bound: 0, tbound: 1},
 		{name: "elastic addresses on stdin x 2 ports", args: []string{"elastic", "-p", "9200,9201", "-w", "3", "-f", "-"}, stdin: `{"ip":"10.0.1.1"}` + "\n" + `{"ip":"bad"}` + "\n" + `{"ip":"10.0.1.2"}` + "\n", kind: "app", workers: 3, bound: 0, tbound: 1},
+		{name: "socks 6 workers, every probe positive, result queues scaled to 1", args: []string{"socks", "-p", "2,4,6,8,10,12", "-w", "6", "10.0.1.0/31"}, kind: "app", workers: 6, bound: 0, tbound: 1, smallQueues: true},
+		{name: "socks 6 workers, every probe positive, result queues scaled to 1, slow stdout", args: []string{"socks", "-p", "2,4,6,8,10,12", "-w", "6", "10.0.1.0/31"}, kind: "app", workers: 6, bound: 0, tbound: 1, smallQueues: true, slowOut: 10 * time.Millisecond, rateper: 10 * time.Millisecond},
+		{name: "tcp-syn with replies, result queues scaled to 1, slow stdout", args: []string{"tcp", "syn", "-p", "80-83", "10.0.1.1/32"}, stdin: cacheA, kind: "packet", reply: cmd("tcp-syn"), bound: 0, tbound: 1, smallQueues: true, slowOut: 10 * time.Millisecond, rateper: 10 * time.Millisecond},
 		{name: "docker small", args: []string{"docker", "-p", "2375", "-w", "1", "10.0.1.1/32"}, kind: "app", workers: 1, bound: 1, tbound: 2},
 	}
 	p201, _ := c03manyPorts(201)
@@ -84,6 +92,25 @@ func verifC12CLI(c *drv.Ctx) {
 		sc := &vE2ESpec{Args: append(append([]string{}, k.args...), "--json"), Files: k.files, Stdin: k.stdin, NumCPU: 2, Sigint: true, Horizon: 3000000}
 		if k.vpn {
 			sc.World = c01vpnWorld
+		}
+		if k.slowOut > 0 {
+			world, so := sc.World, k.slowOut
+			sc.World = func(w *zzvenv.World) {
+				if world != nil {
+					world(w)
+				} else {
+					vDefaultWorld(w)
+				}
+				w.SlowStdout = func(n int, p []byte) (int, time.Duration) { return len(p) / 2, so }
+			}
+		}
+		if k.smallQueues {
+			sc.CapMap = func(n int) int {
+				if n >= 100 {
+					return 1
+				}
+				return n
+			}
 		}
 		sc.Positive = func(ip string, port uint16) bool { return port%2 == 0 }
 		sc.ProbeErr = func(ip string, port uint16) error {
@@ -163,6 +190,14 @@ func verifC12CLI(c *drv.Ctx) {
 			return fmt.Sprintf("sigint:%d:%s", i, strings.SplitN(v.Msg, ":", 2)[0])
 		})
 		c.Nontrivial(1)
+		if os.Getenv("VERIF_C12DEBUG") != "" {
+			n := 0
+			for o, cnt := range r.Outcomes {
+				if n++; n < 12 {
+					c.Note("DEBUG %s: outcome %q x%d", k.name, o, cnt)
+				}
+			}
+		}
 		if c.Shard == 0 {
 			c.Sample(map[string]any{"scenario": name, "executions_this_shard": r.Execs, "executions_with_sigint": r.EventFired, "distinct_outcomes": len(r.Outcomes), "max_threads": r.MaxThreads, "max_choice_points": r.MaxPoints})
 		}
